@@ -293,6 +293,8 @@ class CliWorkers(core.Layer):
         self.name, self.optional, self.cpus = name, optional, cpus
         self.worlds = [candidate_worlds(6)[0], candidate_worlds(7)[3], decoy_world(), candidate_worlds(7, dup_refs=True)[1]]
         self.items = [(wi, k, mode) for wi in range(len(self.worlds)) for k in cpus for mode in (('all',) if wi else ('all', 'joined'))]
+        self.worlds.append(many_world())
+        self.items += [(len(self.worlds) - 1, k, 'all') for k in (2, 3)]
         # the same command a second time INTO THE SAME OUTPUT PATH (the files of the first run are still there)
         self.items += [(wi, 'again', mode) for wi in (0, 2) for mode in ('all', 'joined')]
         self.bounds = dict(worlds=len(self.worlds), cpus=list(cpus), baseline='-c 1')
@@ -301,7 +303,7 @@ class CliWorkers(core.Layer):
 
     def prepare(self):
         for wi, w in enumerate(self.worlds):
-            for mode in ('all', 'joined'):
+            for mode in sorted({m for i, k, m in self.items if i == wi}):
                 rc, err, raw = driver.run_cli(w, mode, cpus=1)
                 self.base[(wi, mode)] = (rc, {k: driver.strip_echo(v) for k, v in raw.items()}, err[-300:])
 
@@ -374,6 +376,26 @@ def decoy_world():
     kept = [p for i, p in enumerate(bp) if not (lo <= p <= hi and (i - 30) % 4 == 1)]
     b2 = (b[0], b[1], [round(p + (700.0 if p >= lo else 0.0), 1) for p in kept])
     return dict(refs=[a2, b2], queries=[worlds.as_map(30, q), worlds.as_map(4, worlds.window_query(a, 12, 16, True)[0][2])])
+
+
+def many_world(n=20):
+    """more molecules than 16 x cpus for -c 1 (and more than 4 x cpus for -c 2, 3): anything that cuts the work into batches or
+    chunks whose size depends on --cpus gets different cuts; a SHORT reference (shorter than the long molecules) is the true origin of
+    the short molecules, which follow long ones in file order"""
+    refs = e2e.std_refs()
+    short = worlds.catalogue_ref(9, 'menu', 12, ref_id=1)
+    qs = []
+    for j in range(n):
+        if j % 2:
+            q = worlds.window_query(short, (j // 2) % 4, 8, bool(j % 4 == 1))[0][2]
+        elif j % 6 == 4:
+            r = refs[(j // 2) % 3]
+            a, b = worlds.window_query(r, 5 + j, 12, False)[0][2], worlds.window_query(r, 30 + j // 2, 10, False)[0][2]
+            q = worlds.apply_edit(a, ('chimera', b, 140000.0))
+        else:
+            q = worlds.window_query(refs[(j // 2) % 3], 6 + 2 * j, 18 + j % 5, bool(j % 4 == 2))[0][2]
+        qs.append(worlds.as_map(100 + j, q, trailing=(0.0, 2500.0)[j % 2]))
+    return dict(refs=[refs[1], short, refs[0], refs[2]], queries=qs)
 
 
 def base_digest(base):
